@@ -312,8 +312,9 @@ class _Sim:
 
     MAX_STEPS = 4000
 
-    def __init__(self, table, ci, self_obj, fail=None, result=None):
+    def __init__(self, table, ci, self_obj, fail=None, result=None, follow=False):
         self.table, self.ci, self.self_obj, self.fail, self.result = table, ci, self_obj, fail, result
+        self.follow = follow  # True: every call of an (undecorated) function of the module is followed into its body, not only one that is handed the actor
         self.trace = []
         self.steps = 0
         self.depth = 0
@@ -391,6 +392,8 @@ class _Sim:
             return None
         if isinstance(hits[0], ast.FunctionDef):
             return hits[0] if not hits[0].decorator_list else None
+        if isinstance(hits[0].value, ast.Constant) and isinstance(hits[0].value.value, (str, int, float)) and not isinstance(hits[0].value.value, bool):
+            return hits[0].value.value  # a named constant (text / number) that the parse-time propagation left in place
         if not isinstance(hits[0].value, (ast.Tuple, ast.List, ast.Dict, ast.Set)):
             return None
         try:
@@ -677,16 +680,21 @@ class _Sim:
             return self._invoke(fv.func, [self.self_obj] + list(args), kwargs, bound=True)
         if isinstance(fv, _Sym) and fv.dotted in _SIM_BUILTINS:
             fv = _SIM_BUILTINS[fv.dotted]
+        if isinstance(fv, _Sym) and fv.dotted in _SIM_LIBRARY:
+            fv = _SIM_LIBRARY[fv.dotted]
         if isinstance(fv, _Sym):
             if fv.dotted in ("getattr", "hasattr", "isinstance", "type", "id", "callable", "print", "super"):
                 return self._special(fv.dotted, args, kwargs, e)
-            if "." not in fv.dotted and any(a_ is self.self_obj for a_ in list(args) + list(kwargs.values())):
+            if "." not in fv.dotted and (self.follow or any(a_ is self.self_obj for a_ in list(args) + list(kwargs.values()))):
                 # a function of the module that is handed the actor works on its behalf (a handler body moved to module level): followed like a method
+                # (follow=True: the pure helpers of the module that compute WHAT the actor works on are followed as well)
                 g_ = self._global(fv.dotted)
                 if isinstance(g_, ast.FunctionDef):
                     return self._invoke(g_, list(args), kwargs, bound=False)
             mk = (lambda ev: _Obj(cls=fv.dotted, call=ev)) if fv.last[:1].isupper() else None  # CapWords: an instance of that class
             return self._event(fv.last, fv.dotted, args, kwargs, e, default=mk)
+        if any(fv is b for b in (sorted, min, max, filter)) and any(isinstance(x, _Bound) or getattr(x, "_sim_callback", False) for x in list(args) + list(kwargs.values())):
+            return _lib_keyed(self, fv, args, kwargs, e)  # the key / predicate is a routine of the simulated code: applied by the simulation
         if any(fv is b for b in _SIM_BUILTINS.values()):
             try:
                 r = fv(*args, **kwargs)
@@ -963,6 +971,105 @@ class _Sim:
         if isinstance(p, ast.MatchSingleton):
             return v is p.value
         raise _Cannot(f"pattern kind {type(p).__name__} at line {getattr(p, 'lineno', '?')}")
+
+
+# library functions that take ROUTINES of the simulated code (a key function, a mapper) or that the grouping / flattening idioms are written with: evaluated by the simulation
+# itself (eagerly, on lists), with the routine applied through the interpreter
+def _lib(fn):
+    fn._sim_callback = True
+    return fn
+
+
+def _sim_apply(sim, f, xs, e):
+    return sim._call_value(f, list(xs), {}, e, "<routine>")
+
+
+@_lib
+def _lib_groupby(sim, args, kwargs, e):
+    """itertools.groupby: runs of CONSECUTIVE elements with equal keys (the groups are lists here)"""
+    if not 1 <= len(args) <= 2 or set(kwargs) - {"key"} or (len(args) == 2 and "key" in kwargs):
+        raise _Raised("TypeError", e)
+    key = args[1] if len(args) == 2 else kwargs.get("key")
+    out = []
+    for x in sim._iterable(args[0], e):
+        k = x if key is None else _sim_apply(sim, key, [x], e)
+        if out and out[-1][0] == k:
+            out[-1][1].append(x)
+        else:
+            out.append((k, [x]))
+    return out
+
+
+@_lib
+def _lib_chain(sim, args, kwargs, e):
+    if kwargs:
+        raise _Raised("TypeError", e)
+    return [x for it in args for x in sim._iterable(it, e)]
+
+
+@_lib
+def _lib_chain_from_iterable(sim, args, kwargs, e):
+    if len(args) != 1 or kwargs:
+        raise _Raised("TypeError", e)
+    return [x for it in sim._iterable(args[0], e) for x in sim._iterable(it, e)]
+
+
+@_lib
+def _lib_map(sim, args, kwargs, e):
+    if len(args) < 2 or kwargs:
+        raise _Raised("TypeError", e)
+    return [_sim_apply(sim, args[0], xs, e) for xs in zip(*[sim._iterable(it, e) for it in args[1:]])]
+
+
+@_lib
+def _lib_itemgetter(sim, args, kwargs, e):
+    if not args or kwargs:
+        raise _Raised("TypeError", e)
+    keys = list(args)
+
+    @_lib
+    def getter(sim_, args_, kwargs_, e_):
+        if len(args_) != 1 or kwargs_:
+            raise _Raised("TypeError", e_)
+        o = args_[0]
+        if not isinstance(o, (list, tuple, str, dict)):
+            raise _Cannot(f"item of the unknown value `{o!r:.40}`")
+        try:
+            r = [o[k] for k in keys]
+        except (KeyError, IndexError, TypeError) as x:
+            raise _Raised(type(x).__name__, e_)
+        return r[0] if len(r) == 1 else tuple(r)
+
+    return getter
+
+
+def _lib_keyed(sim, fn, args, kwargs, e):
+    """sorted / min / max with key=<routine>, filter(<routine>, xs)"""
+    if fn is filter:
+        if len(args) != 2 or kwargs:
+            raise _Raised("TypeError", e)
+        return [x for x in sim._iterable(args[1], e) if (bool(x) if args[0] is None else bool(_sim_apply(sim, args[0], [x], e)))]
+    key = kwargs.get("key")
+    rest = {k: v for k, v in kwargs.items() if k != "key"}
+    if len(args) != 1 or any(isinstance(v, (_Bound, _Opaque, _Obj, _Sym)) for v in rest.values()):
+        raise _Cannot(f"`{u(e)[:60]}`")
+    items = sim._iterable(args[0], e)
+    keys = [x if key is None else _sim_apply(sim, key, [x], e) for x in items]
+    try:
+        if fn is sorted:
+            return [items[i] for i in sorted(range(len(items)), key=lambda i: keys[i], **rest)]
+        if not items:
+            if "default" in rest:
+                return rest["default"]
+            raise _Raised("ValueError", e)
+        return items[fn(range(len(items)), key=lambda i: keys[i])]
+    except TypeError:
+        raise _Raised("TypeError", e)
+
+
+_SIM_LIBRARY = {"itertools.groupby": _lib_groupby, "groupby": _lib_groupby, "itertools.chain": _lib_chain, "chain": _lib_chain,
+                "itertools.chain.from_iterable": _lib_chain_from_iterable, "chain.from_iterable": _lib_chain_from_iterable, "map": _lib_map,
+                "operator.itemgetter": _lib_itemgetter, "itemgetter": _lib_itemgetter}
 
 
 def _load(t):
@@ -1502,7 +1609,9 @@ def run(chk):
         "when a later one fails. Roles (which attribute counts the acknowledgements, holds the external flag, parks the start messages, holds the mechanic) are derived from data "
         "flow; the acknowledgement helper, the dispatcher's convention-update handler, the node mechanic's StartNodes / StopNodes / exit handling and the ChildActorExited handlers "
         "are evaluated by interpreting their statements on stand-in values (calls into helper methods of the class are followed, every other call is recorded; failures are "
-        "injected call by call); CFG rules run on copies of the methods with the helper methods of the class expanded in place."
+        "injected call by call); CFG rules run on copies of the methods with the helper methods of the class expanded in place. How the nodes of the target host list are dealt "
+        "out to the hosts is decided by value: the grouping expression the Dispatcher iterates and the Dispatcher's StartEngine handler are interpreted (the module's pure helper "
+        "functions followed) on representative host lists and compared with what the list demands (one start message per ip:port pair with as many distinct node ids as entries)."
     )
     chk.not_decided = "interleavings of remote daemons joining, real process termination, Thespian delivery."
 
@@ -2034,6 +2143,160 @@ def run(chk):
             got = not (out.kind == "return" and isinstance(out.value, ast.Constant) and out.value.value is False)
             chk.ob("O12.1c", f"capability check: {label} -> {'qualifies' if want else 'does not qualify'}", got == want, cc, f"{'qualifies' if got else 'does not qualify'}",
                    key=f"esrally/actor.py:RallyActor.actorSystemCapabilityCheck:{label}")
+
+    # ---- O12.1d the node ids are a partition of the target host list -----------------------------------------
+    chk.rule("O12.1d", "the nodes are dealt out to the hosts without loss: evaluated on representative target-host lists (several nodes per host listed next to each other and "
+             "round-robin, several ports on one ip, local and remote hosts), the grouping that the mechanic counts and the Dispatcher iterates has one entry per distinct "
+             "ip:port pair that holds as many node ids as the pair has entries in the list, and no id twice; the Dispatcher's StartEngine handler registers exactly one start "
+             "message per pair, built from the pair's ip and port and from exactly the node ids grouped under it, parked with a node actor or deferred under its own ip", 4,
+             "--target-hosts=a,b,a: a node of host a is never provisioned or started although both sides agree on the number of acknowledgements, so race control is told "
+             "that the engine has started while a target host has not started all of its nodes (or a node id is started twice / on another host)")
+    IP_L = "127.0.0.1"
+    host_lists = [("two nodes of one host listed next to each other", [(IP_A, 9200), (IP_A, 9200), (IP_B, 9200)], True),
+                  ("the nodes of two hosts listed round-robin", [(IP_A, 9200), (IP_B, 9200), (IP_A, 9200)], True),
+                  ("local and remote nodes listed round-robin, two ports per ip", [(IP_L, 39200), (IP_A, 9200), (IP_L, 39201), (IP_A, 9201), (IP_L, 39200), (IP_A, 9200)], True),
+                  ("a single node", [(IP_B, 9200)], False)]
+    msg_cls = de.name[len("receiveMsg_"):]
+
+    def resolved(ev):
+        """name resolution of an ip literal is the identity; a method of the start message builds a message whose content is what it was given"""
+        if ev.callee.rsplit(".", 1)[-1] in ("resolve", "gethostbyname", "resolve_ip", "resolve_host") and len(ev.args) == 1 and not ev.kwargs and isinstance(ev.args[0], str):
+            return ev.args[0]
+        if isinstance(ev.recv, _Obj) and ev.recv.cls == msg_cls:
+            return _Obj(name=f"{ev.callee}(...)", call=ev)
+        return NotImplemented
+
+    def start_message(pairs):
+        return _Obj(cls=msg_cls, name="start message", external=False, hosts=[{"host": ip_, "port": port_} for ip_, port_ in pairs])
+
+    def key_of(pair, keys):
+        """the key of the grouping that stands for the ip:port pair"""
+        hits = [k for k in keys if (isinstance(k, (tuple, list)) and len(k) == 2 and isinstance(k[0], str) and isinstance(k[1], int) and tuple(k) == pair)
+                or (isinstance(k, str) and k == f"{pair[0]}:{pair[1]}")]
+        return hits[0] if len(hits) == 1 else None
+
+    def ids_of(v):
+        """a collection of node ids (numbers / texts), as a sorted list; None: something else"""
+        if isinstance(v, (list, tuple, set, frozenset)) and all(isinstance(x, (int, str)) and not isinstance(x, bool) for x in v) and len({type(x) for x in v}) <= 1:
+            return sorted(v)
+        return None
+
+    if hosts_attr is None:
+        chk.unknown("O12.1d", "the Dispatcher's loop does not iterate a grouping of the host list of the start message", loops[0])
+    else:
+        for label, pairs, several in host_lists:
+            distinct = list(dict.fromkeys(pairs))
+            text_in = ",".join(f"{ip_}:{port_}" for ip_, port_ in pairs)
+            # (1) the grouping itself: the expression the Dispatcher iterates (the same function chain the mechanic counts), evaluated on the list
+            sim = _Sim(model.table, DI, _Obj(name="self"), result=resolved, follow=True)
+            try:
+                grouping = sim.val(_clone(src_d), {dmp: start_message(pairs)})
+                problem = None
+            except _Cannot as e:
+                grouping, problem = None, str(e)
+            except _Raised as e:
+                grouping, problem = None, f"{e.name} is raised"
+            except (TypeError, AttributeError, ValueError, KeyError, IndexError, RecursionError) as e:
+                grouping, problem = None, f"{type(e).__name__}: {e}"
+            if problem is None and not isinstance(grouping, dict):
+                problem = f"its value is not a map ({grouping!r:.60})"
+            if problem is None:
+                keys = {p_: key_of(p_, list(grouping)) for p_ in distinct}
+                if any(k is None for k in keys.values()) or len(grouping) != len(distinct) or any(ids_of(v) is None for v in grouping.values()):
+                    problem = f"its value {grouping!r:.120} is not keyed by the ip:port pairs of the list / does not hold collections of node ids"
+            if problem is not None:
+                chk.unknown("O12.1d", f"{label} ({text_in}): `{u(src_d)[:80]}` cannot be evaluated: {problem}", loops[0])
+                continue
+            all_ids = [x for v in grouping.values() for x in v]
+            ok = all(len(grouping[keys[p_]]) == pairs.count(p_) for p_ in distinct) and len(set(all_ids)) == len(all_ids) == len(pairs)
+            shown = ", ".join(f"{p_[0]}:{p_[1]} -> {list(grouping[keys[p_]])}" for p_ in distinct)
+            _sim_ob(chk, "O12.1d", f"grouping: {label}", ok, loops[0],
+                    f"{text_in}: {shown}" + ("" if ok else f"; expected {', '.join(f'{pairs.count(p_)} id(s) for {p_[0]}:{p_[1]}' for p_ in distinct)}, {len(pairs)} different ids in all"),
+                    [sim.trace], key=f"{_M}:Dispatcher.{de.name}:grouping:{label}")
+            if not ok or not several:
+                continue
+            # (2) the fan-out: the handler itself on the same list
+            me = dispatcher({}, [])
+            sim = _Sim(model.table, DI, me, result=resolved, follow=True)
+            try:
+                sim.call_method(de, [start_message(pairs), "address of the mechanic"])
+                problem = None
+            except _Cannot as e:
+                problem = str(e)
+            except _Raised as e:
+                problem = f"{e.name} is raised"
+            regs = []  # (start message, "actor" | the key under which it waits for its remote)
+            if problem is None:
+                pv, dv = me.fields.get(parked_attr), me.fields.get(deferred_attr)
+                created = [e_.result for e_ in sim.trace if e_.name == "createActor"]
+                if not isinstance(pv, list) or not isinstance(dv, dict) or not all(isinstance(v, list) for v in dv.values()):
+                    problem = f"self.{parked_attr} / self.{deferred_attr} is not a list of pairs / a map of lists after the handler"
+                else:
+                    sent = [tuple(e_.args[:2]) for e_ in sim.trace if e_.name == "send" and len(e_.args) >= 2 and any(e_.args[0] is c_ for c_ in created)]
+                    for p_ in list(pv) + sent:
+                        if not (isinstance(p_, (tuple, list)) and len(p_) == 2):
+                            problem = f"self.{parked_attr} holds {p_!r:.40}, not (node actor, start message)"
+                        elif any(p_[0] is c_ for c_ in created) and not any(p_[1] is r_[0] for r_ in regs):
+                            regs.append((p_[1], "actor"))
+                    for k_, v_ in dv.items():
+                        regs += [(m_, k_) for m_ in v_]
+                    if problem is None and not all(isinstance(getattr(m_, "call", None), _Ev) for m_, _ in regs):
+                        problem = "a registered start message is not the result of a recorded call (its content is not known)"
+            if problem is not None:
+                chk.unknown("O12.1d", f"{label} ({text_in}): {de.name} cannot be evaluated on this list: {problem}", de)
+                continue
+
+            def content(m_, depth=0):
+                """the values a start message was built from: the arguments of the recorded call that produced it, the fields set on it afterwards, and (two levels) the
+                members of tuples / the content of objects among them"""
+                vals = (list(m_.call.args) + list(m_.call.kwargs.values()) if isinstance(getattr(m_, "call", None), _Ev) else []) + (list(m_.fields.values()) if isinstance(m_, _Obj) else [])
+                more = []
+                for v in vals:
+                    if isinstance(v, tuple):
+                        more += list(v)
+                    elif depth < 2 and isinstance(v, (_Obj, _Opaque)) and v is not me and not any(v is m2 for m2, _ in regs) and isinstance(getattr(v, "call", None), _Ev):
+                        more += content(v, depth + 1)
+                return vals + more
+
+            def carries(m_, what):
+                return any(type(x) is type(what) and x == what for x in content(m_) if isinstance(x, (str, int)))
+
+            # the message of a pair is LOCATED by the ip and the port it was built from; what is decided is how many there are, which node ids it got and where it waits
+            located = {p_: [(m_, where) for m_, where in regs if carries(m_, p_[0]) and carries(m_, p_[1])] for p_ in distinct}
+            if len(regs) == len(distinct) and not all(len(located[p_]) == 1 for p_ in distinct):
+                chk.unknown("O12.1d", f"{label} ({text_in}): the registered start messages cannot be told apart by the ip and the port they were built from "
+                            f"({', '.join(f'{p_[0]}:{p_[1]}: {len(located[p_])}' for p_ in distinct)})", de)
+                continue
+            id_type = type(all_ids[0])
+
+            def id_lists(m_):
+                return [g_ for g_ in (ids_of(x) for x in content(m_)) if g_ and type(g_[0]) is id_type]
+
+            if len(regs) == len(distinct) and not any(id_lists(m_) for m_, _ in regs):
+                chk.unknown("O12.1d", f"{label} ({text_in}): no registered start message is built from a collection of node ids", de)
+                continue
+            verdicts = []
+            for p_ in distinct:
+                if len(regs) != len(distinct):
+                    break
+                m_, where = located[p_][0]
+                want = ids_of(grouping[keys[p_]])
+                got_ids = id_lists(m_)
+                if want not in got_ids:
+                    verdicts.append((False, f"{p_[0]}:{p_[1]}: built from the node ids {got_ids} instead of {want}"))
+                elif where == "actor" or where == p_[0] or (isinstance(where, tuple) and p_[0] in where):
+                    verdicts.append((True, ""))
+                elif isinstance(where, str) and any(where == q_[0] for q_ in distinct):
+                    verdicts.append((False, f"{p_[0]}:{p_[1]}: waits for the daemon on {where}"))
+                else:
+                    verdicts.append((None, f"{p_[0]}:{p_[1]}: waits under the key {where!r:.40}"))
+            if any(v is None for v, _ in verdicts) and not any(v is False for v, _ in verdicts):
+                chk.unknown("O12.1d", f"{label} ({text_in}): " + "; ".join(t for v, t in verdicts if v is None), de)
+                continue
+            ok = len(regs) == len(distinct) and all(v for v, _ in verdicts)
+            _sim_ob(chk, "O12.1d", f"start messages: {label}", ok, de,
+                    f"{text_in}: {len(regs)} start message(s) registered for {len(distinct)} ip:port pair(s)" + "".join("; " + t for v, t in verdicts if v is False),
+                    [sim.trace], key=f"{_M}:Dispatcher.{de.name}:fan-out:{label}")
 
     # ---- O12.2 external bypass ---------------------------------------------------------------------------
     chk.rule("O12.2", "on the externally-provisioned edge of start and of stop no actor is created and no StartEngine/StartNodes/StopNodes is sent; create() raises for external", 3,
@@ -2851,7 +3114,46 @@ _H3_CONV_ROUTINES = ('    def _remote_left(self, convmsg):\n'
                      '            # stay subscribed: a remote node that leaves while its host is still starting nodes needs to be reported as well\n'
                      '            self.send_all_pending()\n')
 
+_NBH_OLD = ("    nodes = {}\n    node_id = 0\n    for ip_port in ip_port_pairs:\n        if ip_port not in nodes:\n            nodes[ip_port] = []\n"
+            "        nodes[ip_port].append(node_id)\n        node_id += 1\n    return nodes\n")
+_FAN_OLD = "            submsg = startmsg.for_nodes(all_node_ips, all_node_ids, ip, port, node)\n"
+
 VARIANTS = [
+    # C12-m13: the node ids are a partition of the target host list (O12.1d)
+    [V("m13: nodes_by_host groups only adjacent entries of the target host list (itertools.groupby on the unsorted list)", "break", _M, "import contextlib\n", "import contextlib\nimport itertools\n", "O12.1d"),
+     V("", "break", _M, _NBH_OLD, "    nodes = {}\n    for ip_port, group in itertools.groupby(enumerate(ip_port_pairs), key=lambda e: e[1]):\n"
+                                  "        nodes[ip_port] = [node_id for node_id, _ in group]\n    return nodes\n")],
+    V("m13': a later entry of a host replaces the node ids collected so far", "break", _M, "        nodes[ip_port].append(node_id)\n", "        nodes[ip_port] = [node_id]\n", "O12.1d"),
+    V("m13': the node id is not advanced (every node gets id 0)", "break", _M, "        nodes[ip_port].append(node_id)\n        node_id += 1\n", "        nodes[ip_port].append(node_id)\n", "O12.1d"),
+    V("m13': the node id is advanced only when a new host shows up", "break", _M, "            nodes[ip_port] = []\n        nodes[ip_port].append(node_id)\n        node_id += 1\n",
+      "            nodes[ip_port] = []\n            node_id += 1\n        nodes[ip_port].append(node_id)\n", "O12.1d"),
+    V("m13': the dispatcher hands every host only the first of its node ids", "break", _M, _FAN_OLD, _FAN_OLD.replace("port, node)", "port, node[:1])"), "O12.1d"),
+    V("m13': the dispatcher hands every host the ids of all nodes", "break", _M, _FAN_OLD, _FAN_OLD.replace("port, node)", "port, all_node_ids)"), "O12.1d"),
+    V("m13': the dispatcher hands every host the node ids of the first host", "break", _M, _FAN_OLD, _FAN_OLD.replace("port, node)", "port, all_nodes_by_host[all_ips_and_ports[0]])"), "O12.1d"),
+    V("m13': the start message of a remote host waits for the daemon of another host", "break", _M, "                self.remotes[ip].append(submsg)\n",
+      "                self.remotes[sorted(all_node_ips)[-1]].append(submsg)\n", "O12.1d"),
+    V("m13 keep: the dispatcher builds StartNodes itself", "keep", _M, _FAN_OLD,
+      "            submsg = StartNodes(startmsg.cfg, startmsg.open_metrics_context, startmsg.sources, startmsg.distribution, startmsg.external, startmsg.docker,\n"
+      "                                 all_node_ips, all_node_ids, ip, port, node)\n"),
+    [V("m13 keep: registration of a start message in a helper method of the dispatcher", "keep", _M,
+       _FAN_OLD + "            submsg.reply_to = sender\n            if ip == \"127.0.0.1\":\n                m = self.createActor(NodeMechanicActor, targetActorRequirements={\"coordinator\": True})\n"
+       "                self.pending.append((m, submsg))\n            else:\n                self.remotes[ip].append(submsg)\n",
+       "            self._register(startmsg.for_nodes(all_node_ips, all_node_ids, ip, port, node), ip, sender)\n"),
+     V("", "keep", _M, "    def send_all_pending(self):\n",
+       "    def _register(self, submsg, ip, reply_to):\n        submsg.reply_to = reply_to\n        if ip == \"127.0.0.1\":\n"
+       "            m = self.createActor(NodeMechanicActor, targetActorRequirements={\"coordinator\": True})\n            self.pending.append((m, submsg))\n"
+       "        else:\n            self.remotes[ip].append(submsg)\n\n    def send_all_pending(self):\n")],
+    V("m13 keep: to_ip_port as a comprehension over a local function", "keep", _M, "        ip = net.resolve(host_or_ip)\n        ip_port_pairs.append((ip, port))\n    return ip_port_pairs\n",
+      "        ip_port_pairs.append((host_or_ip, port))\n\n    def resolved(pair):\n        return net.resolve(pair[0]), pair[1]\n\n    return [resolved(p) for p in ip_port_pairs]\n"),
+    V("m13 keep: grouping respelt with enumerate and setdefault", "keep", _M, _NBH_OLD,
+      "    nodes = {}\n    for node_id, ip_port in enumerate(ip_port_pairs):\n        nodes.setdefault(ip_port, []).append(node_id)\n    return nodes\n"),
+    [V("m13 keep: groupby over the entries SORTED by ip:port (all entries of a pair are adjacent then)", "keep", _M, "import contextlib\n", "import contextlib\nimport itertools\n"),
+     V("", "keep", _M, _NBH_OLD, "    by_pair = sorted(enumerate(ip_port_pairs), key=lambda e: e[1])\n"
+                                 "    return {ip_port: [node_id for node_id, _ in group] for ip_port, group in itertools.groupby(by_pair, key=lambda e: e[1])}\n")],
+    V("m13 keep: grouping collected in a defaultdict", "keep", _M, _NBH_OLD,
+      "    nodes = defaultdict(list)\n    for node_id in range(len(ip_port_pairs)):\n        nodes[ip_port_pairs[node_id]] += [node_id]\n    return dict(nodes)\n"),
+    V("m13 keep: the start message of a host is built with keyword arguments from a copy of its node ids", "keep", _M, _FAN_OLD,
+      "            submsg = startmsg.for_nodes(all_node_ips=all_node_ips, all_node_ids=all_node_ids, node_ids=tuple(node), port=port, ip=ip)\n"),
     V("F3: address called instead of send", "break", _M, "            self.send(\n                self.start_sender,\n                actor.BenchmarkFailure(\"Remote Rally node [%s] has been shutdown prematurely.\" % convmsg.remoteAdminAddress),\n            )",
       "            self.start_sender(actor.BenchmarkFailure(\"Remote Rally node [%s] has been shutdown prematurely.\" % convmsg.remoteAdminAddress))", "O12.4"),
     V("departure only logged", "break", _M, "            self.send(\n                self.start_sender,\n                actor.BenchmarkFailure(\"Remote Rally node [%s] has been shutdown prematurely.\" % convmsg.remoteAdminAddress),\n            )", "            pass", "O12.4"),
